@@ -75,6 +75,48 @@ def props():
         print("| %s | %d | %s | %s | %s |" % (p, n, e.get("wall_s", "?"), c.get("evaluations", "?"), c.get("obligations", "?")))
 
 
+def axioms():
+    """per property: axioms named by Print Assumptions under the Props theorems (from the evidence) and the coqchk result."""
+    print("| property | theorems closed under the global context | axioms named by Print Assumptions (all from the standard library / Coquelicot) | coqchk -o (thorough tier) |")
+    print("|---|---|---|---|")
+    for i in range(1, 21):
+        p = "C%02d" % i
+        ev = os.path.join(ROOT, "evidence", p + ".json")
+        e = json.load(open(ev)) if os.path.exists(ev) else {}
+        c = e.get("coverage", {})
+        pa = c.get("print_assumptions") or e.get("print_assumptions") or {}
+        names, closed, total = set(), 0, 0
+        if isinstance(pa, dict) and "axioms_used" in pa:
+            names = set(pa["axioms_used"]); closed = pa.get("closed_under_global_context", 0); total = pa.get("theorems", 0)
+        elif isinstance(pa, dict):
+            for k, v in pa.items():
+                total += 1
+                v = str(v)
+                if v.strip().startswith("Closed"):
+                    closed += 1
+                for m in re.finditer(r"([A-Za-z_][A-Za-z_0-9]*(?:\.[A-Za-z_][A-Za-z_0-9']*)+)\s*:", v):
+                    names.add(m.group(1))
+        ck = c.get("coqchk")
+        ckp = os.path.join(ROOT, "corpus", "coqchk", p + ".json")
+        if ck is None and os.path.exists(ckp):
+            ck = json.load(open(ckp))
+        if ck is None:
+            cks = "no completed run recorded"
+        elif ck.get("exit") == 0:
+            own = [a for a in ck.get("axioms", []) if not a.startswith(("Coq.Floats", "Coq.Numbers.Cyclic"))]
+            prim = len(ck.get("axioms", [])) - len(own)
+            cks = "ok in %ss; %d primitive float/int63 declarations of the standard library%s" % (ck.get("secs"), prim, ("; " + ", ".join(a.replace("Coq.", "") for a in own)) if own else "")
+        elif ck.get("exit") == 124:
+            cks = "did not finish within %ss (recorded, non-fatal)" % ck.get("secs")
+        else:
+            cks = "exit %s" % ck.get("exit")
+        prim = sorted(n for n in names if n.startswith(("PrimFloat.", "PrimInt63.", "FloatAxioms.", "Uint63.", "FloatOps.", "Sint63.")))
+        rest = sorted(n for n in names if n not in prim)
+        if prim:
+            rest.append("%d primitive float / int63 operations and their specification axioms of the standard library (PrimFloat.*, PrimInt63.*, FloatAxioms.*)" % len(prim))
+        print("| %s | %s of %s | %s | %s |" % (p, closed, total, ", ".join(rest) or "none", cks))
+
+
 if __name__ == "__main__":
     import sys
-    {"seeds": seeds, "findings": findings, "props": props}[sys.argv[1]]()
+    {"seeds": seeds, "findings": findings, "props": props, "axioms": axioms}[sys.argv[1]]()
